@@ -45,7 +45,9 @@ ASSUME = [
     'shutting down is not judged',
     'a trigger that would remove a member (one with in-group prerequisites) '
     'whose job submission command is queued but not yet started is only '
-    'issued in the dedicated `chain2-prepwin` entry: there the abandoned job '
+    'issued in the dedicated `chain2-prepwin` / `xcycle-prepwin` entries '
+    '(in job preparation = submission command queued or running): there '
+    'the abandoned job '
     'is submitted nevertheless (known finding '
     'removed-preparing-member-job-still-submitted) and that finding would '
     'otherwise cut the search of every other entry short',
@@ -98,7 +100,13 @@ def _specs(tier: str):
             ('chain3-holdpt', [('P1', shapes['chain3'])], 1, 2, flows_q,
              {'options': {'holdcp': '0'}}, (), 1),
             prepwin,
-            (xcyc[0], xcyc[1], 2, 2, ['all', 'new'],
+            # (flow=all only: with --flow=new, members pooled in the old
+            # flow in other cycles are re-flowed or merged member by member,
+            # which the statement does not decide)
+            ('xcycle-prepwin', xcyc[1], 2, 2, flows_q,
+             {'scheduling': {'runahead limit': 'P0'},
+              'only_parts': ['2/b+2/c'], 'prepwin': True}, (), 1),
+            (xcyc[0], xcyc[1], 2, 2, flows_q,
              {'scheduling': {'runahead limit': 'P0'}, 'only_parts': ['1/a+2/b', '2/b+2/c', '1/a+2/a', '1/b+2/b',
                              '1/c+2/b']},
              (), 1),
@@ -200,8 +208,9 @@ def run(ctx: Ctx) -> Result:
     counts = COUNTS.collect(ctx.scratch)
     # (violations cut searches short: the guards only make sense without
     # them; the known finding is confined to its own tiny entry)
-    others = [v for v in st.violations if v['signature']
-              != 'removed-preparing-member-job-still-submitted']
+    others = [v for v in st.violations if v['signature'] not in (
+        'removed-preparing-member-job-still-submitted',
+        'member-never-ran:inner:removed-while-jobs-submit-in-flight')]
     if not st.error and not others:
         need = ['member:inner:inactive', 'member:start:live',
                 'inner_member_prepared', 'start_member_started_at_once']
